@@ -507,10 +507,16 @@ def _ranges(cfgmap, sorts):
     return out
 
 
-def ack_verdict(env, f, cfg, cmemo, info=None):
-    """None if the property holds for do_ackermannization(f), else (kind, message[, where])"""
+def ack_verdict(env, f, cfg, cmemo, info=None, warm=None):
+    """None if the property holds for do_ackermannization(f), else (kind, message[, where]).
+    If `warm` is given the same Ackermannizer instance first converts `warm` (instance reuse)."""
     try:
         A = rw.Ackermannizer(env)
+        if warm is not None:
+            try:
+                A.do_ackermannization(warm)
+            except Exception:
+                pass
         g = A.do_ackermannization(f)
         hint = A.get_term_to_const_dict()
     except Exception as e:
@@ -949,6 +955,7 @@ def make_cnf(env, profile, res, part):
 def make_ack(env, profile, res, part):
     cfg = part["cfg"]
     cmemo = {}
+    prev = [None]
 
     def check(f):
         if _sort(f, cmemo) != BOOL:
@@ -957,6 +964,19 @@ def make_ack(env, profile, res, part):
             return
         info = {}
         v = ack_verdict(env, f, cfg, cmemo, info)
+        if v is None and prev[0] is not None:
+            # the same Ackermannizer object used for the previous formula of the enumeration first
+            # (neighbours share applications): the result for f must still satisfy the property
+            v2 = ack_verdict(env, f, cfg, cmemo, {}, warm=prev[0])
+            res.count("conversions")
+            if v2 is not None:
+                res.outcome("ack:FAIL-reused:%s" % v2[0])
+                res.violation(part["name"], "ack:reused-instance:%s" % v2[0],
+                              "%s: after converting %s with the same Ackermannizer object: %s"
+                              % (part["name"], _short(prev[0]), v2[1]),
+                              {"part": part["name"], "kind": "ack", "term": termio.dump(f), "warm": termio.dump(prev[0]),
+                               "cfg": _cfg_json(cfg)})
+        prev[0] = f
         res.count("conversions")
         res.count("assignments", info.get("evals", 0))
         if info.get("undecided"):
@@ -1256,7 +1276,8 @@ def replay(rec):
         t = termio.short(case["term"])
         if case.get("kind") == "ack":
             cfg = _cfg_from_json(case["cfg"]) if "cfg" in case else ACK_QUICK
-            v = ack_verdict(env, f, cfg, {})
+            warm = termio.build(env, case["warm"]) if "warm" in case else None
+            v = ack_verdict(env, f, cfg, {}, warm=warm)
             if v is None:
                 return True, "do_ackermannization(%s) has the advertised form and preserves models" % t
             return False, "%s: %s" % (v[0], v[1])
